@@ -26,16 +26,16 @@ type probe struct {
 }
 
 type ctx struct {
-	s      *chainsim.Sim
-	g      *chainsim.Gen
-	r      *vlib.Rand
-	tip    *refchain.Node
-	height uint32
-	view   refchain.UTXO
-	avail  []refchain.OutPoint
+	s           *chainsim.Sim
+	g           *chainsim.Gen
+	r           *vlib.Rand
+	tip         *refchain.Node
+	height      uint32
+	view        refchain.UTXO
+	avail       []refchain.OutPoint
 	segwit, csv bool
 	spentHist   []refchain.OutPoint
-	now    int64
+	now         int64
 }
 
 func (c *ctx) coin(op refchain.OutPoint) refchain.Coin { return c.view[op] }
@@ -1096,7 +1096,7 @@ func Configs(tier string) []Config {
 		{Name: "testnet-late", Late: true, Testnet: true, Blocks: 140},
 	}
 	if tier == "quick" {
-		l = append(l, Config{Name: "retarget-mainnet", Retarget: true, Blocks: 2 * 2016 + 20}, Config{Name: "retarget-testnet", Retarget: true, Testnet: true, Blocks: 2*2016 + 20})
+		l = append(l, Config{Name: "retarget-mainnet", Retarget: true, Blocks: 2*2016 + 20}, Config{Name: "retarget-testnet", Retarget: true, Testnet: true, Blocks: 2*2016 + 20})
 	} else {
 		l = append(l, Config{Name: "retarget-mainnet", Retarget: true, Blocks: 6*2016 + 20}, Config{Name: "retarget-testnet", Retarget: true, Testnet: true, Blocks: 6*2016 + 20})
 	}
